@@ -62,7 +62,9 @@ func (varsScen) Gen(r *Rng, cfg GenConfig) any {
 		switch k := r.Intn(10); {
 		case k < 6:
 			v.Kind, v.Args = "str", []string{vaValue(r)}
-			if r.Chance(1, 5) {
+			if r.Chance(1, 150) {
+				v.Args = []string{"pre{BIG}post"} // a very long value (and a very long line in the spokfile)
+			} else if r.Chance(1, 5) {
 				v.Args = []string{Pick(r, []string{"build/out.txt", "./dist", "out dir/x.bin", "bin", "../sibling/out", "a/b/../c"})}
 			}
 		case k < 8:
@@ -73,7 +75,9 @@ func (varsScen) Gen(r *Rng, cfg GenConfig) any {
 		case k < 10 || true:
 			word := Pick(r, []string{"hello", "v1.2.3", "a b", "x=y", "'$EDITOR'", "'${TARGET}' x", "'$NAME'"})
 			v.Kind, v.Args = "exec", []string{Pick(r, []string{"echo ", "echo   ", "echo -n "}) + word + Pick(r, []string{"", " ", "   "})}
-			if r.Chance(1, 8) {
+			if r.Chance(1, 100) {
+				v.Args = []string{"echo a{BIG}z"} // more output than a pipe buffer or a scanner token holds
+			} else if r.Chance(1, 8) {
 				v.Args = []string{Pick(r, []string{"exit 3", "false", "echo oops && exit 1"})}
 			} else if r.Chance(1, 8) {
 				// several lines of output: only the surrounding whitespace is trimmed
@@ -115,6 +119,13 @@ func (varsScen) Gen(r *Rng, cfg GenConfig) any {
 
 // modelValue evaluates a variable the way the specification says.
 func vaModelValue(v VarDef, proj string) (val string, fails bool) {
+	if strings.Contains(strings.Join(v.Args, ""), "{BIG}") {
+		args := make([]string, len(v.Args))
+		for i, a := range v.Args {
+			args[i] = expandBig(a)
+		}
+		v.Args = args
+	}
 	switch v.Kind {
 	case "str":
 		return v.Args[0], false
